@@ -1,8 +1,9 @@
 (* Loader/Theory.v — theorems about the document-loader model (property C19).
    Every statement is for ALL configurations (cache mode, embedded documents,
-   IPFS client / gateway, URL-parser oracle) and ALL histories
-   (`run cfg ops = fold_left (step cfg) ops init`), proved by induction over the
-   history; the `Example`s show the hypotheses are satisfiable. *)
+   IPFS client / gateway, URL-parser oracle, and ANY behaviour `cc` of the
+   cachecontrol library) and ALL histories (`run cfg ops = fold_left (step cfg)
+   ops init`), proved by induction over the history; the `Example`s show the
+   hypotheses are satisfiable. *)
 From Coq Require Import ZArith NArith List String Ascii Bool Lia.
 From GSP Require Import Base.Prelude Loader.Model.
 Import ListNotations.
@@ -33,6 +34,10 @@ Proof.
       * destruct (IH H) as [H1|H1]; [left; exact H1|right; right; exact H1].
 Qed.
 
+(* the only kind of response that carries a usable document: 200 with a JSON body *)
+Definition ok_resp (d : doc) (p : policy) : response := RResp 200 (BJson d) p.
+Definition failing (r : response) : Prop := forall d p, r <> ok_resp d p.
+
 (* ---- the routing decision table, written independently of `load` ---- *)
 Inductive route := ToHttp (k : url) | ToNode (rest : string) | Reject.
 
@@ -44,6 +49,14 @@ Definition route_of (cfg : config) (u : url) : route :=
     else if String.eqb (gateway cfg) "" then Reject
     else ToHttp (gateway_url (gateway cfg) (drop 7 u))
   else Reject.
+
+(* the client and the key under which a load consults the origin *)
+Definition chan_key (cfg : config) (u : url) : option (channel * url) :=
+  match route_of cfg u with
+  | ToHttp k => Some (CHttp, k)
+  | ToNode r => Some (CNode, node_key r)
+  | Reject => None
+  end.
 
 Lemma load_route cfg st u :
   match route_of cfg u with
@@ -82,6 +95,24 @@ Lemma route_other cfg u :
   has_prefix "ipfs://" u = false -> route_of cfg u = Reject.
 Proof. intros H1 H2 H3. unfold route_of. rewrite H1, H2, H3. reflexivity. Qed.
 
+Theorem route_table cfg :
+  (forall s, route_of cfg ("http://" ++ s)%string = ToHttp ("http://" ++ s)%string) /\
+  (forall s, route_of cfg ("https://" ++ s)%string = ToHttp ("https://" ++ s)%string) /\
+  (forall s, ipfs_client cfg = true -> route_of cfg ("ipfs://" ++ s)%string = ToNode s) /\
+  (forall s, ipfs_client cfg = false -> gateway cfg <> "" ->
+             route_of cfg ("ipfs://" ++ s)%string = ToHttp (gateway_url (gateway cfg) s)) /\
+  (forall s, ipfs_client cfg = false -> gateway cfg = "" -> route_of cfg ("ipfs://" ++ s)%string = Reject) /\
+  (forall u, has_prefix "http://" u = false -> has_prefix "https://" u = false ->
+             has_prefix "ipfs://" u = false -> route_of cfg u = Reject).
+Proof.
+  split; [intros; apply route_http|].
+  split; [intros; apply route_https|].
+  split; [intros; apply route_ipfs_client; assumption|].
+  split; [intros; apply route_ipfs_gateway; assumption|].
+  split; [intros; apply route_ipfs_none; assumption|].
+  intros; apply route_other; assumption.
+Qed.
+
 (* ---- what one HTTP load can do ---- *)
 Inductive http_step (cfg : config) (st : state) (u : url) : state -> res doc -> Prop :=
 | HS_quiet_err t :                       (* engine Get error / URL does not parse: nothing happened *)
@@ -89,37 +120,50 @@ Inductive http_step (cfg : config) (st : state) (u : url) : state -> res doc -> 
 | HS_hit d e :                           (* fresh cache entry or embedded document, no request *)
     cache_on cfg = true -> engine_get cfg st u = GHit d e -> after e (now st) = true ->
     http_step cfg st u st (Ok d)
-| HS_fail f t :                          (* request, failed response: logged, nothing stored *)
-    origin st u = RFail f ->
-    http_step cfg st u (log_req st (CHttp, u, now st, RFail f)) (Err t)
+| HS_fail r t :                          (* request, failed response: logged, nothing stored *)
+    origin st u = r -> failing r ->
+    http_step cfg st u (log_req st (CHttp, u, now st, r)) (Err t)
 | HS_unstored d p :                      (* request, current document returned, nothing stored *)
-    origin st u = ROk d p ->
-    http_step cfg st u (log_req st (CHttp, u, now st, ROk d p)) (Ok d)
+    origin st u = ok_resp d p ->
+    http_step cfg st u (log_req st (CHttp, u, now st, ok_resp d p)) (Ok d)
 | HS_set_err d p t :                     (* request, engine Set error *)
-    origin st u = ROk d p ->
-    http_step cfg st u (log_req st (CHttp, u, now st, ROk d p)) (Err t)
+    origin st u = ok_resp d p ->
+    http_step cfg st u (log_req st (CHttp, u, now st, ok_resp d p)) (Err t)
 | HS_store d p :                         (* request, current document returned and stored *)
-    origin st u = ROk d p -> cachable p = true -> cache_on cfg = true ->
+    origin st u = ok_resp d p -> cc_store cfg p = true -> cache_on cfg = true ->
     assoc String.eqb u (embedded cfg) = None ->
     http_step cfg st u
-      (set_cache (log_req st (CHttp, u, now st, ROk d p))
-                 (upsert String.eqb u (d, expiry p (now st)) (cache st)))
+      (set_cache (log_req st (CHttp, u, now st, ok_resp d p))
+                 (upsert String.eqb u (d, expiry_of (cc_lifetime cfg p) (now st)) (cache st)))
       (Ok d).
+
+Lemma failing_transport : failing RTransport.
+Proof. intros d p H. discriminate. Qed.
+Lemma failing_status code b p : (code =? 200) = false -> failing (RResp code b p).
+Proof. intros H d q E. inversion E. subst. discriminate. Qed.
+Lemma failing_garbage code p : failing (RResp code BGarbage p).
+Proof. intros d q E. inversion E. Qed.
 
 Lemma fetch_spec cfg st u :
   http_step cfg st u (fst (fetch cfg st u)) (snd (fetch cfg st u)).
 Proof.
   unfold fetch.
   destruct (url_ok cfg u) eqn:Hu; simpl; [|apply HS_quiet_err].
-  destruct (origin st u) as [d p|f] eqn:Ho.
-  - destruct (cachable p) eqn:Hc; simpl; [|apply (HS_unstored _ _ _ d p Ho)].
-    destruct (cache_on cfg) eqn:Hon; simpl; [|apply (HS_unstored _ _ _ d p Ho)].
-    unfold engine_set.
-    destruct (set_fails cfg) eqn:Hs; simpl; [apply (HS_set_err _ _ _ d p _ Ho)|].
-    destruct (assoc String.eqb u (embedded cfg)) as [d0|] eqn:He; simpl.
-    + apply (HS_unstored _ _ _ d p Ho).
-    + apply (HS_store _ _ _ d p Ho Hc Hon He).
-  - destruct f; simpl; apply HS_fail; exact Ho.
+  destruct (origin st u) as [code b p|] eqn:Ho.
+  - destruct (code =? 200) eqn:Hcode; simpl.
+    + apply Z.eqb_eq in Hcode. subst code.
+      destruct b as [d|]; simpl.
+      * change (RResp 200 (BJson d) p) with (ok_resp d p) in *.
+        destruct (cc_store cfg p) eqn:Hc; simpl; [|apply (HS_unstored _ _ _ d p Ho)].
+        destruct (cache_on cfg) eqn:Hon; simpl; [|apply (HS_unstored _ _ _ d p Ho)].
+        unfold engine_set.
+        destruct (set_fails cfg) eqn:Hs; simpl; [apply (HS_set_err _ _ _ d p _ Ho)|].
+        destruct (assoc String.eqb u (embedded cfg)) as [d0|] eqn:He; simpl.
+        -- apply (HS_unstored _ _ _ d p Ho).
+        -- apply (HS_store _ _ _ d p Ho Hc Hon He).
+      * apply HS_fail; [exact Ho|apply failing_garbage].
+    + apply HS_fail; [exact Ho|apply failing_status; exact Hcode].
+  - simpl. apply HS_fail; [exact Ho|apply failing_transport].
 Qed.
 
 Lemma load_http_spec cfg st u :
@@ -138,15 +182,20 @@ Qed.
 Lemma load_node_eq cfg st r :
   fst (load_node cfg st r) = log_req st (CNode, node_key r, now st, origin st (node_key r)) /\
   match snd (load_node cfg st r) with
-  | Ok d => exists p, origin st (node_key r) = ROk d p
-  | Err _ => exists f, origin st (node_key r) = RFail f
+  | Ok d => exists p, origin st (node_key r) = ok_resp d p
+  | Err _ => failing (origin st (node_key r))
   | _ => False
   end.
 Proof.
   unfold load_node.
-  destruct (origin st (node_key r)) as [d p|f] eqn:Ho; simpl.
-  - split; [reflexivity|eexists; reflexivity].
-  - destruct f; simpl; (split; [reflexivity|eexists; reflexivity]).
+  destruct (origin st (node_key r)) as [code b p|] eqn:Ho; simpl.
+  - destruct (code =? 200) eqn:Hcode; simpl.
+    + apply Z.eqb_eq in Hcode. subst code.
+      destruct b as [d|]; simpl; (split; [reflexivity|]).
+      * exists p. reflexivity.
+      * apply failing_garbage.
+    + split; [reflexivity|apply failing_status; exact Hcode].
+  - split; [reflexivity|apply failing_transport].
 Qed.
 
 (* ---- frame facts ---- *)
@@ -155,16 +204,17 @@ Lemma http_step_frame cfg st u st' out :
   now st' = now st /\ origin st' = origin st /\
   (reqlog st' = reqlog st \/ reqlog st' = (CHttp, u, now st, origin st u) :: reqlog st).
 Proof.
-  intros H. destruct H as [t|d e Hon Hg Ha|f t Ho|d p Ho|d p t Ho|d p Ho Hc Hon He]; simpl;
+  intros H. destruct H as [t|d e Hon Hg Ha|r t Ho Hf|d p Ho|d p t Ho|d p Ho Hc Hon He]; simpl;
     repeat split; auto; right; rewrite Ho; reflexivity.
 Qed.
 
 Lemma load_frame cfg st u :
   now (fst (load cfg st u)) = now st /\ origin (fst (load cfg st u)) = origin st /\
   (reqlog (fst (load cfg st u)) = reqlog st \/
-   exists c k, reqlog (fst (load cfg st u)) = (c, k, now st, origin st k) :: reqlog st).
+   exists c k, chan_key cfg u = Some (c, k) /\
+               reqlog (fst (load cfg st u)) = (c, k, now st, origin st k) :: reqlog st).
 Proof.
-  pose proof (load_route cfg st u) as Hr.
+  pose proof (load_route cfg st u) as Hr. unfold chan_key.
   destruct (route_of cfg u) as [k|r|].
   - rewrite Hr. destruct (http_step_frame _ _ _ _ _ (load_http_spec cfg st k)) as [H1 [H2 H3]].
     repeat split; auto. destruct H3 as [H3|H3]; [left; exact H3|right; eauto].
@@ -173,93 +223,113 @@ Proof.
   - destruct Hr as [t Hr]. rewrite Hr. simpl. auto.
 Qed.
 
-Lemma step_now_mono cfg st o : now st <= now (step cfg st o).
-Proof.
-  destruct o as [u v p|u k|u|dt]; simpl; try lia.
-  destruct (load_frame cfg st u) as [H _]. rewrite H. lia.
-Qed.
-
-Lemma fold_now_mono cfg ops st : now st <= now (fold_left (step cfg) ops st).
-Proof.
-  revert st. induction ops as [|o t IH]; intros st; simpl; [lia|].
-  pose proof (step_now_mono cfg st o). pose proof (IH (step cfg st o)). lia.
-Qed.
-
 Lemma run_app cfg pre post : run cfg (pre ++ post) = fold_left (step cfg) post (run cfg pre).
 Proof. unfold run. apply fold_left_app. Qed.
 
-Lemma run_now_mono cfg pre post : now (run cfg pre) <= now (run cfg (pre ++ post)).
-Proof. rewrite run_app. apply fold_now_mono. Qed.
+(* ---- the clock and the origin are functions of the history alone ---- *)
+Definition elapsed (ops : list op) : Z :=
+  fold_left (fun t o => match o with Tick dt => t + Z.of_N dt | _ => t end) ops 0.
+
+Definition served (ops : list op) (k : url) : response :=
+  fold_left (fun r o => match o with Serve u r' => if String.eqb k u then r' else r | _ => r end)
+            ops not_found.
+
+Lemma now_run cfg ops : now (run cfg ops) = elapsed ops.
+Proof.
+  induction ops as [|o l IH] using rev_ind; [reflexivity|].
+  rewrite run_app. unfold elapsed. rewrite fold_left_app. fold (elapsed l). rewrite <- IH. simpl.
+  destruct o as [u r|u|dt]; simpl; try reflexivity.
+  destruct (load_frame cfg (run cfg l) u) as [H _]. exact H.
+Qed.
+
+Lemma origin_run cfg ops k : origin (run cfg ops) k = served ops k.
+Proof.
+  induction ops as [|o l IH] using rev_ind; [reflexivity|].
+  rewrite run_app. unfold served. rewrite fold_left_app. fold (served l k). rewrite <- IH. simpl.
+  destruct o as [u r|u|dt]; simpl; try reflexivity.
+  destruct (load_frame cfg (run cfg l) u) as [_ [H _]]. rewrite H. reflexivity.
+Qed.
+
+Lemma elapsed_app pre post : elapsed pre <= elapsed (pre ++ post).
+Proof.
+  unfold elapsed. rewrite fold_left_app. generalize (fold_left
+    (fun t o => match o with Tick dt => t + Z.of_N dt | _ => t end) pre 0).
+  induction post as [|o t IH]; intros z; simpl; [lia|].
+  destruct o as [u r|u|dt]; try apply IH.
+  pose proof (IH (z + Z.of_N dt)). lia.
+Qed.
 
 (* ---- the request log is a faithful record of the history ---- *)
-(* `requested cfg ops k t r`: some Load of the history was executed at time t,
-   when the origin's answer for key k was r *)
-Definition requested (cfg : config) (ops : list op) (k : url) (t : Z) (r : response) : Prop :=
-  exists pre u post, ops = pre ++ Load u :: post /\
-                     now (run cfg pre) = t /\ origin (run cfg pre) k = r.
+(* `requested cfg ops c k t r`: some `Load u` of the history, routed to client c under key k,
+   was executed at time t, when the origin's answer at k was r *)
+Definition requested (cfg : config) (ops : list op) (c : channel) (k : url) (t : Z) (r : response) : Prop :=
+  exists pre u post, ops = pre ++ Load u :: post /\ chan_key cfg u = Some (c, k) /\
+                     elapsed pre = t /\ served pre k = r.
 
-Lemma requested_snoc cfg ops o k t r : requested cfg ops k t r -> requested cfg (ops ++ [o]) k t r.
+Lemma requested_snoc cfg ops o c k t r :
+  requested cfg ops c k t r -> requested cfg (ops ++ [o]) c k t r.
 Proof.
-  intros [pre [u [post [H1 [H2 H3]]]]]. exists pre, u, (post ++ [o]). subst ops.
+  intros [pre [u [post [H1 [H2 [H3 H4]]]]]]. exists pre, u, (post ++ [o]). subst ops.
   rewrite <- app_assoc. simpl. auto.
 Qed.
 
 Lemma reqlog_history cfg ops c k t r :
-  In (c, k, t, r) (reqlog (run cfg ops)) -> requested cfg ops k t r.
+  In (c, k, t, r) (reqlog (run cfg ops)) -> requested cfg ops c k t r.
 Proof.
   induction ops as [|o l IH] using rev_ind; [intros []|].
   rewrite run_app. simpl. intros Hin.
-  destruct o as [u v p|u f|u|dt]; simpl in Hin;
+  destruct o as [u r0|u|dt]; simpl in Hin;
     try (apply requested_snoc; apply IH; exact Hin).
-  destruct (load_frame cfg (run cfg l) u) as [_ [_ [Hl|[c0 [k0 Hl]]]]]; rewrite Hl in Hin.
+  destruct (load_frame cfg (run cfg l) u) as [_ [_ [Hl|[c0 [k0 [Hck Hl]]]]]]; rewrite Hl in Hin.
   - apply requested_snoc; apply IH; exact Hin.
   - destruct Hin as [Heq|Hin].
-    + inversion Heq. subst. exists l, u, []. auto.
+    + inversion Heq. subst. exists l, u, []. repeat split; auto.
+      * symmetry. apply now_run.
+      * symmetry. apply origin_run.
     + apply requested_snoc; apply IH; exact Hin.
 Qed.
 
 (* ---- the cache invariant ---- *)
 Definition justified (cfg : config) (st : state) (k : url) (d : doc) (e : etime) : Prop :=
   assoc String.eqb k (embedded cfg) = None /\
-  exists t p, In (CHttp, k, t, ROk d p) (reqlog st) /\ cachable p = true /\
-              e = expiry p t /\ t <= now st.
+  exists t p, In (CHttp, k, t, ok_resp d p) (reqlog st) /\ cc_store cfg p = true /\
+              e = expiry_of (cc_lifetime cfg p) t.
 
 Definition inv (cfg : config) (st : state) : Prop :=
   forall k d e, In (k, (d, e)) (cache st) -> justified cfg st k d e.
 
 Lemma justified_weaken cfg st st' k d e :
   justified cfg st k d e -> (forall r, In r (reqlog st) -> In r (reqlog st')) ->
-  now st <= now st' -> justified cfg st' k d e.
+  justified cfg st' k d e.
 Proof.
-  intros [He [t [p [Hin [Hc [Hx Ht]]]]]] Hsub Hnow. split; [exact He|].
-  exists t, p. repeat split; auto. lia.
+  intros [He [t [p [Hin [Hc Hx]]]]] Hsub. split; [exact He|].
+  exists t, p. repeat split; auto.
 Qed.
 
 Lemma http_step_inv cfg st u st' out : inv cfg st -> http_step cfg st u st' out -> inv cfg st'.
 Proof.
   intros Hinv H.
-  destruct H as [t|d e Hon Hg Ha|f t Ho|d p Ho|d p t Ho|d p Ho Hc Hon He]; auto;
+  destruct H as [t|d e Hon Hg Ha|r t Ho Hf|d p Ho|d p t Ho|d p Ho Hc Hon He]; auto;
     try (intros k0 d0 e0 Hin; simpl in Hin;
-         apply (justified_weaken cfg st); [apply Hinv; exact Hin|simpl; auto|simpl; lia]).
+         apply (justified_weaken cfg st); [apply Hinv; exact Hin|simpl; auto]).
   intros k0 d0 e0 Hin. simpl in Hin. apply in_upsert in Hin. destruct Hin as [[Hk Hv]|Hin].
-  - inversion Hv. subst. split; [exact He|]. exists (now st), p. simpl. repeat split; auto. lia.
-  - apply (justified_weaken cfg st); [apply Hinv; exact Hin|simpl; auto|simpl; lia].
+  - inversion Hv. subst. split; [exact He|]. exists (now st), p. simpl. repeat split; auto.
+  - apply (justified_weaken cfg st); [apply Hinv; exact Hin|simpl; auto].
 Qed.
 
 Lemma step_inv cfg st o : inv cfg st -> inv cfg (step cfg st o).
 Proof.
-  intros Hinv. destruct o as [u v p|u f|u|dt]; simpl.
-  - exact Hinv.
+  intros Hinv. destruct o as [u r|u|dt]; simpl.
   - exact Hinv.
   - pose proof (load_route cfg st u) as Hr.
     destruct (route_of cfg u) as [k|r|].
     + rewrite Hr. apply (http_step_inv cfg st k _ _ Hinv (load_http_spec cfg st k)).
     + rewrite Hr. destruct (load_node_eq cfg st r) as [H1 _]. rewrite H1.
       intros k0 d0 e0 Hin. simpl in Hin.
-      apply (justified_weaken cfg st); [apply Hinv; exact Hin|simpl; auto|simpl; lia].
+      apply (justified_weaken cfg st); [apply Hinv; exact Hin|simpl; auto].
     + destruct Hr as [t Hr]. rewrite Hr. exact Hinv.
   - intros k0 d0 e0 Hin. simpl in Hin.
-    apply (justified_weaken cfg st); [apply Hinv; exact Hin|simpl; auto|simpl; lia].
+    apply (justified_weaken cfg st); [apply Hinv; exact Hin|simpl; auto].
 Qed.
 
 Lemma fold_inv cfg ops st : inv cfg st -> inv cfg (fold_left (step cfg) ops st).
@@ -271,21 +341,27 @@ Qed.
 Theorem run_inv cfg ops : inv cfg (run cfg ops).
 Proof. apply fold_inv. intros k d e []. Qed.
 
-(* C19_inv, history form: every cache entry (k -> d, e) of every reachable state
-   was the origin's answer at k, with a caching-permitting policy p, when some
-   earlier Load of the history was executed at time t, e = t + lifetime p (the zero
-   time when the library gives none), and k is not an embedded URL. *)
-Definition from_history (cfg : config) (ops : list op) (k : url) (d : doc) (e : etime) : Prop :=
-  assoc String.eqb k (embedded cfg) = None /\
-  exists t p, requested cfg ops k t (ROk d p) /\ cachable p = true /\
-              e = expiry p t /\ t <= now (run cfg ops).
-
-Theorem cache_from_history cfg ops k d e :
-  In (k, (d, e)) (cache (run cfg ops)) -> from_history cfg ops k d e.
+Lemma chan_key_http cfg u k : chan_key cfg u = Some (CHttp, k) -> route_of cfg u = ToHttp k.
 Proof.
-  intros Hin. destruct (run_inv cfg ops k d e Hin) as [He [t [p [Hl [Hc [Hx Ht]]]]]].
-  split; [exact He|]. exists t, p. repeat split; auto.
-  apply (reqlog_history cfg ops CHttp). exact Hl.
+  unfold chan_key. destruct (route_of cfg u) as [k0|r|]; intros H; inversion H; reflexivity.
+Qed.
+
+(* C19_inv: every cache entry (k -> d, e) of every reachable state is the 200/JSON answer the
+   origin gave at k, with headers p the library accepts for storing, when an earlier Load of
+   the history (routed to the HTTP client under key k) was executed; e is that moment plus the
+   lifetime the library computed (the zero time when it gives none); and k is not an embedded URL. *)
+Theorem cache_from_history cfg ops k d e :
+  In (k, (d, e)) (cache (run cfg ops)) ->
+  assoc String.eqb k (embedded cfg) = None /\
+  exists pre u post p,
+    ops = pre ++ Load u :: post /\ route_of cfg u = ToHttp k /\
+    served pre k = RResp 200 (BJson d) p /\ cc_store cfg p = true /\
+    e = expiry_of (cc_lifetime cfg p) (elapsed pre).
+Proof.
+  intros Hin. destruct (run_inv cfg ops k d e Hin) as [He [t [p [Hl [Hc Hx]]]]].
+  split; [exact He|].
+  destruct (reqlog_history cfg ops CHttp k t _ Hl) as [pre [u [post [H1 [H2 [H3 H4]]]]]].
+  exists pre, u, post, p. subst t. repeat split; auto. apply chan_key_http. exact H2.
 Qed.
 
 Theorem embedded_never_cached cfg ops k d d' e :
@@ -294,138 +370,7 @@ Proof.
   intros He Hin. destruct (run_inv cfg ops k d' e Hin) as [Hn _]. congruence.
 Qed.
 
-(* ---- C19_fresh ---- *)
-Lemma engine_get_hit cfg st k d e :
-  engine_get cfg st k = GHit d e ->
-  (assoc String.eqb k (embedded cfg) = Some d /\ e = TAt (now st + 3600)) \/
-  (assoc String.eqb k (embedded cfg) = None /\ In (k, (d, e)) (cache st)).
-Proof.
-  unfold engine_get. destruct (get_fails cfg); [discriminate|].
-  destruct (assoc String.eqb k (embedded cfg)) as [d0|] eqn:He.
-  - intros H. inversion H. left; auto.
-  - destruct (assoc String.eqb k (cache st)) as [[d0 e0]|] eqn:Hc; [|discriminate].
-    intros H. inversion H. subst. right. split; [reflexivity|]. apply assoc_in. exact Hc.
-Qed.
-
-(* where a returned document may come from *)
-Inductive source (cfg : config) (ops : list op) (k : url) (d : doc) (st st' : state) : Prop :=
-| SrcOrigin p :                 (* the origin's current document, fetched by exactly one request *)
-    origin st k = ROk d p -> reqlog st' = (CHttp, k, now st, ROk d p) :: reqlog st ->
-    source cfg ops k d st st'
-| SrcCache e :                  (* an earlier cachable response whose lifetime has not expired *)
-    In (k, (d, e)) (cache st) -> from_history cfg ops k d e -> after e (now st) = true ->
-    st' = st -> source cfg ops k d st st'
-| SrcEmbedded :                 (* an embedded document *)
-    assoc String.eqb k (embedded cfg) = Some d -> st' = st -> source cfg ops k d st st'.
-
-Lemma http_step_source cfg ops k st' d :
-  http_step cfg (run cfg ops) k st' (Ok d) -> source cfg ops k d (run cfg ops) st'.
-Proof.
-  intros H. inversion H as [t|d0 e Hon Hg Ha|f t Ho|d0 p Ho|d0 p t Ho|d0 p Ho Hc Hon He]; subst.
-  - destruct (engine_get_hit _ _ _ _ _ Hg) as [[He Hx]|[He Hin]].
-    + apply SrcEmbedded; auto.
-    + apply (SrcCache _ _ _ _ _ _ e); auto. apply cache_from_history. exact Hin.
-  - apply (SrcOrigin _ _ _ _ _ _ p); auto.
-  - apply (SrcOrigin _ _ _ _ _ _ p); auto.
-Qed.
-
-Theorem load_fresh cfg ops u st' out :
-  load cfg (run cfg ops) u = (st', out) ->
-  (exists t, out = Err t) \/
-  exists d, out = Ok d /\
-    match route_of cfg u with
-    | ToHttp k => source cfg ops k d (run cfg ops) st'
-    | ToNode r => exists p, origin (run cfg ops) (node_key r) = ROk d p
-    | Reject => False
-    end.
-Proof.
-  intros Hl. pose proof (load_route cfg (run cfg ops) u) as Hr.
-  destruct (route_of cfg u) as [k|r|].
-  - rewrite Hr in Hl. pose proof (load_http_spec cfg (run cfg ops) k) as Hs.
-    rewrite Hl in Hs. simpl in Hs.
-    destruct out as [d|t|w|].
-    + right. exists d. split; [reflexivity|]. apply http_step_source. exact Hs.
-    + left. eauto.
-    + inversion Hs.
-    + inversion Hs.
-  - rewrite Hr in Hl. destruct (load_node_eq cfg (run cfg ops) r) as [_ H2].
-    rewrite Hl in H2. simpl in H2. destruct out as [d|t|w|]; try contradiction.
-    + right. exists d. split; [reflexivity|exact H2].
-    + left. eauto.
-  - destruct Hr as [t Hr]. rewrite Hr in Hl. inversion Hl. left. eauto.
-Qed.
-
-(* ---- C19_no_reuse ---- *)
-(* the policies under which a stored response can ever be served again *)
-Lemma reusable_policies p l :
-  cachable p = true -> lifetime p = Some l ->
-  p = PMaxAge l \/ p = PSMaxAge l \/ p = PPublicMaxAge l \/ p = PExpiresDate l \/ p = PExpires l.
-Proof.
-  destruct p; simpl; intros Hc Hl; try discriminate; inversion Hl; subst; auto 6.
-Qed.
-
-Lemma after_expiry p t n : after (expiry p t) n = true -> exists l, lifetime p = Some l /\ n < t + l.
-Proof.
-  unfold expiry. destruct (lifetime p) as [l|]; simpl; [|discriminate].
-  intros H. apply Z.ltb_lt in H. eauto.
-Qed.
-
-Theorem load_no_reuse cfg ops u st' d k :
-  load cfg (run cfg ops) u = (st', Ok d) ->
-  route_of cfg u = ToHttp k ->
-  (forall p, origin (run cfg ops) k <> ROk d p) ->      (* the origin no longer serves d at k *)
-  assoc String.eqb k (embedded cfg) = None ->
-  exists t p l, requested cfg ops k t (ROk d p) /\ cachable p = true /\ lifetime p = Some l /\
-                now (run cfg ops) < t + l /\ st' = run cfg ops.
-Proof.
-  intros Hl Hr Hchg Hemb.
-  destruct (load_fresh cfg ops u st' (Ok d) Hl) as [[t Ht]|[d0 [Hd Hs]]]; [discriminate|].
-  inversion Hd. subst d0. rewrite Hr in Hs.
-  destruct Hs as [p Ho _|e Hin Hh Ha Hst|He Hst].
-  - exfalso. apply (Hchg p). exact Ho.
-  - destruct Hh as [_ [t [p [Hq [Hc [He Ht]]]]]]. subst e.
-    destruct (after_expiry _ _ _ Ha) as [l [Hlt Hn]].
-    exists t, p, l. auto.
-  - congruence.
-Qed.
-
-(* ---- C19_failures ---- *)
-Lemma http_step_err_cache cfg st u st' t : http_step cfg st u st' (Err t) -> cache st' = cache st.
-Proof. intros H. inversion H; subst; reflexivity. Qed.
-
-Theorem load_err_cache cfg st u st' t : load cfg st u = (st', Err t) -> cache st' = cache st.
-Proof.
-  intros Hl. pose proof (load_route cfg st u) as Hr.
-  destruct (route_of cfg u) as [k|r|].
-  - rewrite Hr in Hl. pose proof (load_http_spec cfg st k) as Hs. rewrite Hl in Hs.
-    apply (http_step_err_cache _ _ _ _ _ Hs).
-  - rewrite Hr in Hl. destruct (load_node_eq cfg st r) as [H1 _]. rewrite Hl in H1.
-    simpl in H1. subst st'. reflexivity.
-  - destruct Hr as [t0 Hr]. rewrite Hr in Hl. inversion Hl. reflexivity.
-Qed.
-
-(* the key at which a load consults the origin *)
-Definition origin_key (cfg : config) (u : url) : option url :=
-  match route_of cfg u with ToHttp k => Some k | ToNode r => Some (node_key r) | Reject => None end.
-
-Theorem load_failure cfg st u st' out k f :
-  load cfg st u = (st', out) -> origin_key cfg u = Some k -> origin st k = RFail f ->
-  cache st' = cache st /\
-  ((exists t, out = Err t) \/ (exists d, out = Ok d /\ st' = st)).
-Proof.
-  intros Hl Hk Ho. unfold origin_key in Hk. pose proof (load_route cfg st u) as Hr.
-  destruct (route_of cfg u) as [k0|r|]; [| |discriminate]; inversion Hk; subst k.
-  - rewrite Hr in Hl. pose proof (load_http_spec cfg st k0) as Hs. rewrite Hl in Hs. simpl in Hs.
-    inversion Hs as [t|d e Hon Hg Ha|f0 t Ho0|d p Ho0|d p t Ho0|d p Ho0 Hc Hon He]; subst;
-      try congruence; simpl; split; eauto.
-  - rewrite Hr in Hl. destruct (load_node_eq cfg st r) as [H1 H2]. rewrite Hl in H1, H2.
-    simpl in H1, H2. subst st'. simpl. split; [reflexivity|].
-    destruct out as [d|t|w|]; try contradiction.
-    + destruct H2 as [p H2]. congruence.
-    + left. eauto.
-Qed.
-
-(* ---- C19_embedded ---- *)
+(* ---- embedded documents ---- *)
 Lemma embedded_mode cfg k d :
   assoc String.eqb k (embedded cfg) = Some d ->
   cache_on cfg = true /\ get_fails cfg = false /\ set_fails cfg = false.
@@ -449,6 +394,7 @@ Proof.
   unfold engine_set. rewrite Hs, He. reflexivity.
 Qed.
 
+(* an embedded document is returned in EVERY state, and the state (cache, request log) is unchanged *)
 Theorem embedded_served cfg st u k d :
   route_of cfg u = ToHttp k -> assoc String.eqb k (embedded cfg) = Some d ->
   load cfg st u = (st, Ok d).
@@ -458,6 +404,205 @@ Proof.
   unfold load_http. rewrite Hon, (embedded_get cfg st k d He).
   unfold after. replace (now st <? now st + 3600) with true; [reflexivity|].
   symmetry. apply Z.ltb_lt. lia.
+Qed.
+
+(* ---- C19_fresh ---- *)
+Lemma engine_get_hit cfg st k d e :
+  engine_get cfg st k = GHit d e ->
+  (assoc String.eqb k (embedded cfg) = Some d /\ e = TAt (now st + 3600)) \/
+  (assoc String.eqb k (embedded cfg) = None /\ In (k, (d, e)) (cache st)).
+Proof.
+  unfold engine_get. destruct (get_fails cfg); [discriminate|].
+  destruct (assoc String.eqb k (embedded cfg)) as [d0|] eqn:He.
+  - intros H. inversion H. left; auto.
+  - destruct (assoc String.eqb k (cache st)) as [[d0 e0]|] eqn:Hc; [|discriminate].
+    intros H. inversion H. subst. right. split; [reflexivity|]. apply assoc_in. exact Hc.
+Qed.
+
+Lemma after_expiry l t n : after (expiry_of l t) n = true -> exists z, l = Some z /\ n < t + z.
+Proof.
+  destruct l as [z|]; simpl; [|discriminate].
+  intros H. apply Z.ltb_lt in H. eauto.
+Qed.
+
+(* where a returned document comes from *)
+Definition from_origin (cfg : config) (ops : list op) (u : url) (d : doc) (st' : state) : Prop :=
+  exists c k p, chan_key cfg u = Some (c, k) /\ served ops k = RResp 200 (BJson d) p /\
+                reqlog st' = (c, k, elapsed ops, RResp 200 (BJson d) p) :: reqlog (run cfg ops).
+
+Definition from_cache (cfg : config) (ops : list op) (u : url) (d : doc) (st' : state) : Prop :=
+  exists k pre u0 post p l,
+    route_of cfg u = ToHttp k /\ assoc String.eqb k (embedded cfg) = None /\
+    ops = pre ++ Load u0 :: post /\ route_of cfg u0 = ToHttp k /\
+    served pre k = RResp 200 (BJson d) p /\ cc_store cfg p = true /\
+    cc_lifetime cfg p = Some l /\ elapsed ops < elapsed pre + l /\
+    In (k, (d, TAt (elapsed pre + l))) (cache (run cfg ops)) /\
+    st' = run cfg ops.
+
+Definition from_embedded (cfg : config) (ops : list op) (u : url) (d : doc) (st' : state) : Prop :=
+  exists k, route_of cfg u = ToHttp k /\ assoc String.eqb k (embedded cfg) = Some d /\
+            st' = run cfg ops.
+
+Lemma http_step_source cfg ops u k st' d :
+  route_of cfg u = ToHttp k ->
+  http_step cfg (run cfg ops) k st' (Ok d) ->
+  from_origin cfg ops u d st' \/ from_cache cfg ops u d st' \/ from_embedded cfg ops u d st'.
+Proof.
+  intros Hr H.
+  assert (Hck : chan_key cfg u = Some (CHttp, k)) by (unfold chan_key; rewrite Hr; reflexivity).
+  inversion H as [t|d0 e Hon Hg Ha|r t Ho Hf|d0 p Ho|d0 p t Ho|d0 p Ho Hc Hon He]; subst.
+  - destruct (engine_get_hit _ _ _ _ _ Hg) as [[He Hx]|[He Hin]].
+    + right; right. exists k. auto.
+    + right; left.
+      destruct (cache_from_history cfg ops k d e Hin) as [_ [pre [u0 [post [p [H1 [H2 [H3 [H4 H5]]]]]]]]].
+      subst e. rewrite now_run in Ha. destruct (after_expiry _ _ _ Ha) as [l [Hl Hlt]].
+      rewrite Hl in Hin. simpl in Hin.
+      exists k, pre, u0, post, p, l. repeat split; auto.
+  - left. exists CHttp, k, p. rewrite origin_run in Ho. rewrite now_run.
+    repeat split; auto.
+  - left. exists CHttp, k, p. rewrite origin_run in Ho. simpl. rewrite now_run.
+    repeat split; auto.
+Qed.
+
+Theorem load_fresh cfg ops u st' out :
+  load cfg (run cfg ops) u = (st', out) ->
+  (exists t, out = Err t) \/
+  exists d, out = Ok d /\
+    (from_origin cfg ops u d st' \/ from_cache cfg ops u d st' \/ from_embedded cfg ops u d st').
+Proof.
+  intros Hl. pose proof (load_route cfg (run cfg ops) u) as Hr.
+  destruct (route_of cfg u) as [k|r|] eqn:Hroute.
+  - rewrite Hr in Hl. pose proof (load_http_spec cfg (run cfg ops) k) as Hs.
+    rewrite Hl in Hs. simpl in Hs.
+    destruct out as [d|t|w|].
+    + right. exists d. split; [reflexivity|]. apply (http_step_source cfg ops u k); assumption.
+    + left. eauto.
+    + inversion Hs.
+    + inversion Hs.
+  - rewrite Hr in Hl. destruct (load_node_eq cfg (run cfg ops) r) as [H1 H2].
+    rewrite Hl in H1, H2. simpl in H1, H2. destruct out as [d|t|w|]; try contradiction.
+    + right. exists d. split; [reflexivity|]. left. destruct H2 as [p H2].
+      exists CNode, (node_key r), p. unfold chan_key. rewrite Hroute.
+      rewrite origin_run in H2. rewrite H1. simpl. rewrite now_run, origin_run, H2.
+      repeat split; auto.
+    + left. eauto.
+  - destruct Hr as [t Hr]. rewrite Hr in Hl. inversion Hl. left. eauto.
+Qed.
+
+(* in the cached and the embedded case nothing at all changes: in particular no request is logged *)
+Lemma from_cache_quiet cfg ops u d st' : from_cache cfg ops u d st' -> reqlog st' = reqlog (run cfg ops).
+Proof. intros [k [pre [u0 [post [p [l H]]]]]]. decompose [and] H. subst st'. reflexivity. Qed.
+Lemma from_embedded_quiet cfg ops u d st' : from_embedded cfg ops u d st' -> reqlog st' = reqlog (run cfg ops).
+Proof. intros [k [_ [_ H]]]. subst st'. reflexivity. Qed.
+
+(* ---- C19_no_reuse ---- *)
+(* If every response carrying document d that an earlier load obtained at k was one the library
+   does not allow to store, or had no lifetime, or its lifetime is over, then a load returning d
+   has just fetched it: d is what the origin serves now and exactly one request was issued. *)
+Theorem load_no_reuse cfg ops u k d st' :
+  load cfg (run cfg ops) u = (st', Ok d) ->
+  route_of cfg u = ToHttp k ->
+  assoc String.eqb k (embedded cfg) = None ->
+  (forall pre u0 post p,
+     ops = pre ++ Load u0 :: post -> route_of cfg u0 = ToHttp k ->
+     served pre k = RResp 200 (BJson d) p ->
+     cc_store cfg p = false \/ cc_lifetime cfg p = None \/
+     (exists l, cc_lifetime cfg p = Some l /\ elapsed pre + l <= elapsed ops)) ->
+  exists p, served ops k = RResp 200 (BJson d) p /\
+            reqlog st' = (CHttp, k, elapsed ops, RResp 200 (BJson d) p) :: reqlog (run cfg ops).
+Proof.
+  intros Hl Hr Hemb Hall.
+  destruct (load_fresh cfg ops u st' (Ok d) Hl) as [[t Ht]|[d0 [Hd Hs]]]; [discriminate|].
+  inversion Hd. subst d0.
+  destruct Hs as [[c [k0 [p [Hck [Hsv Hlog]]]]]|[Hc|He]].
+  - unfold chan_key in Hck. rewrite Hr in Hck. inversion Hck. subst c k0. exists p. auto.
+  - exfalso. destruct Hc as [k0 [pre [u0 [post [p [l H]]]]]].
+    destruct H as [H1 [H2 [H3 [H4 [H5 [H6 [H7 [H8 _]]]]]]]].
+    rewrite Hr in H1. inversion H1. subst k0.
+    destruct (Hall pre u0 post p H3 H4 H5) as [Hn|[Hn|[l' [Hn Hle]]]]; try congruence.
+    rewrite H7 in Hn. inversion Hn. subst l'. lia.
+  - exfalso. destruct He as [k0 [H1 [H2 _]]]. rewrite Hr in H1. inversion H1. subst k0. congruence.
+Qed.
+
+(* header sets that forbid storing, and header sets without freshness information *)
+Definition forbids (p : policy) : Prop :=
+  match p with PNoStore | PPrivate | PPrivateMaxAge _ | PNoStoreMaxAge _ => True | _ => False end.
+Definition no_freshness (p : policy) : Prop :=
+  match p with PNone | PNoCache | PExpiresInvalid => True | _ => False end.
+
+(* the assumption on the dependency that turns the statement above into one about header names
+   (checked against the recorded table on every run) *)
+Definition cc_respects_headers (cfg : config) : Prop :=
+  (forall p, forbids p -> cc_store cfg p = false) /\
+  (forall p, no_freshness p -> cc_lifetime cfg p = None).
+
+Corollary load_no_reuse_headers cfg ops u k d st' :
+  cc_respects_headers cfg ->
+  load cfg (run cfg ops) u = (st', Ok d) ->
+  route_of cfg u = ToHttp k ->
+  assoc String.eqb k (embedded cfg) = None ->
+  (forall pre u0 post p,
+     ops = pre ++ Load u0 :: post -> route_of cfg u0 = ToHttp k ->
+     served pre k = RResp 200 (BJson d) p -> forbids p \/ no_freshness p) ->
+  exists p, served ops k = RResp 200 (BJson d) p /\
+            reqlog st' = (CHttp, k, elapsed ops, RResp 200 (BJson d) p) :: reqlog (run cfg ops).
+Proof.
+  intros [Hf Hn] Hl Hr Hemb Hall. apply (load_no_reuse cfg ops u k d st' Hl Hr Hemb).
+  intros pre u0 post p H1 H2 H3. destruct (Hall pre u0 post p H1 H2 H3) as [H|H].
+  - left. apply Hf. exact H.
+  - right; left. apply Hn. exact H.
+Qed.
+
+(* ---- C19_failures ---- *)
+Lemma http_step_err_cache cfg st u st' t : http_step cfg st u st' (Err t) -> cache st' = cache st.
+Proof. intros H. inversion H; subst; reflexivity. Qed.
+
+(* a load that returns an error never changes the cache *)
+Theorem load_err_cache cfg st u st' t : load cfg st u = (st', Err t) -> cache st' = cache st.
+Proof.
+  intros Hl. pose proof (load_route cfg st u) as Hr.
+  destruct (route_of cfg u) as [k|r|].
+  - rewrite Hr in Hl. pose proof (load_http_spec cfg st k) as Hs. rewrite Hl in Hs.
+    apply (http_step_err_cache _ _ _ _ _ Hs).
+  - rewrite Hr in Hl. destruct (load_node_eq cfg st r) as [H1 _]. rewrite Hl in H1.
+    simpl in H1. subst st'. reflexivity.
+  - destruct Hr as [t0 Hr]. rewrite Hr in Hl. inversion Hl. reflexivity.
+Qed.
+
+(* while the origin's answer at the key of u is not a 200/JSON response, a load of u leaves the
+   cache unchanged and returns an error — or a document without any request (state unchanged) *)
+Theorem load_failure_state cfg st u st' out c k :
+  load cfg st u = (st', out) -> chan_key cfg u = Some (c, k) -> failing (origin st k) ->
+  cache st' = cache st /\
+  ((exists t, out = Err t) \/ (exists d, out = Ok d /\ st' = st)).
+Proof.
+  intros Hl Hk Ho. unfold chan_key in Hk. pose proof (load_route cfg st u) as Hr.
+  destruct (route_of cfg u) as [k0|r|]; [| |discriminate]; inversion Hk; subst c k.
+  - rewrite Hr in Hl. pose proof (load_http_spec cfg st k0) as Hs. rewrite Hl in Hs. simpl in Hs.
+    inversion Hs as [t|d e Hon Hg Ha|r0 t Ho0 Hf|d p Ho0|d p t Ho0|d p Ho0 Hc Hon He]; subst;
+      try (exfalso; apply (Ho d p); exact Ho0); simpl; split; eauto.
+  - rewrite Hr in Hl. destruct (load_node_eq cfg st r) as [H1 H2]. rewrite Hl in H1, H2.
+    simpl in H1, H2. subst st'. simpl. split; [reflexivity|].
+    destruct out as [d|t|w|]; try contradiction.
+    + destruct H2 as [p H2]. exfalso. apply (Ho d p). exact H2.
+    + left. eauto.
+Qed.
+
+Theorem load_failure cfg ops u st' out c k :
+  load cfg (run cfg ops) u = (st', out) -> chan_key cfg u = Some (c, k) ->
+  (forall d p, served ops k <> RResp 200 (BJson d) p) ->
+  cache st' = cache (run cfg ops) /\
+  ((exists t, out = Err t) \/
+   (exists d, out = Ok d /\ (from_cache cfg ops u d st' \/ from_embedded cfg ops u d st'))).
+Proof.
+  intros Hl Hk Hf.
+  assert (Hf' : failing (origin (run cfg ops) k)).
+  { intros d p. rewrite origin_run. apply Hf. }
+  destruct (load_failure_state _ _ _ _ _ _ _ Hl Hk Hf') as [Hc Hout]. split; [exact Hc|].
+  destruct (load_fresh cfg ops u st' out Hl) as [He|[d [Hd Hs]]]; [left; exact He|].
+  right. exists d. split; [exact Hd|].
+  destruct Hs as [[c0 [k0 [p [Hck [Hsv _]]]]]|Hs]; [|exact Hs].
+  exfalso. rewrite Hk in Hck. inversion Hck. subst c0 k0. apply (Hf d p). exact Hsv.
 Qed.
 
 (* ---- C19_route: which client is asked, for every configuration ---- *)
@@ -479,30 +624,49 @@ Proof.
 Qed.
 
 (* ---- non-vacuity: concrete histories ---- *)
+(* the behaviour of pquerna/cachecontrol v0.0.0-20180517163645-1555304b9b35 on the header sets,
+   written down by hand; the per-run case files carry the recorded table instead *)
+Definition cc_reference (p : policy) : ccdec :=
+  match p with
+  | PMaxAge n | PSMaxAge n | PPublicMaxAge n | PExpiresDate n | PExpires n
+  | PMustRevalidate n | PNoCacheMaxAge n => (true, Some n)
+  | PNone | PNoCache | PExpiresInvalid => (true, None)
+  | PNoStore | PPrivate | PMalformed | PBadDate _ => (false, None)
+  | PPrivateMaxAge n | PNoStoreMaxAge n => (false, Some n)
+  end.
+
+Example cc_reference_respects_headers cm cli gw uok :
+  cc_respects_headers {| cache_mode_of := cm; ipfs_client := cli; gateway := gw; url_ok := uok;
+                         cc := cc_reference |}.
+Proof. split; intros p; destruct p; simpl; intros H; try contradiction; reflexivity. Qed.
+
 Definition ex_cfg : config :=
   {| cache_mode_of := CacheMemory [("https://e.test/ctx", 900)];
-     ipfs_client := false; gateway := "http://gw.test//"; url_ok := fun _ => true |}.
+     ipfs_client := false; gateway := "http://gw.test//"; url_ok := fun _ => true;
+     cc := cc_reference |}.
+
+Definition a_url : url := "http://a.test/d".
 
 Definition ex_ops : list op :=
-  [ Serve "http://a.test/d" 1 (PMaxAge 3000); Load "http://a.test/d";
-    Serve "http://a.test/d" 2 PNoStore; Load "http://a.test/d";       (* v1 from the cache *)
-    Tick 3000; Load "http://a.test/d";                                (* expired: v2, not stored *)
-    Serve "http://a.test/d" 3 PNone; Load "http://a.test/d";          (* v3, stored with zero expiry *)
-    Serve "http://a.test/d" 4 (PMaxAge 1000); Load "http://a.test/d"; (* v4: v3 was not reused *)
-    Fail "http://a.test/d" FStatus; Load "http://a.test/d";           (* v4 from the cache *)
-    Tick 1000; Load "http://a.test/d";                                (* expired and failing: error *)
-    Load "https://e.test/ctx";                                        (* embedded *)
-    Serve "http://gw.test/ipfs/Qm/x" 7 (PSMaxAge 1000); Load "ipfs:///Qm/x";
+  [ Serve a_url (ok_resp 1 (PMaxAge 3000)); Load a_url;
+    Serve a_url (ok_resp 2 PNoStore); Load a_url;                (* v1 from the cache *)
+    Tick 3000; Load a_url;                                       (* expired: v2, not stored *)
+    Serve a_url (ok_resp 3 PNone); Load a_url;                   (* v3, stored with zero expiry *)
+    Serve a_url (ok_resp 4 (PMaxAge 1000)); Load a_url;          (* v4: v3 was not reused *)
+    Serve a_url (RResp 404 (BJson 5) (PMaxAge 1000)); Load a_url; (* v4 from the cache *)
+    Tick 1000; Load a_url;                                       (* expired and failing: error *)
+    Load "https://e.test/ctx";                                   (* embedded *)
+    Serve "http://gw.test/ipfs/Qm/x" (ok_resp 7 (PSMaxAge 1000)); Load "ipfs:///Qm/x";
     Load "ftp://a.test/d" ].
 
 Example ex_observe :
   observe ex_cfg init ex_ops =
-  [ (ODoc 1, [(CHttp, "http://a.test/d")]); (ODoc 1, []);
-    (ODoc 2, [(CHttp, "http://a.test/d")]);
-    (ODoc 3, [(CHttp, "http://a.test/d")]);
-    (ODoc 4, [(CHttp, "http://a.test/d")]);
+  [ (ODoc 1, [(CHttp, a_url)]); (ODoc 1, []);
+    (ODoc 2, [(CHttp, a_url)]);
+    (ODoc 3, [(CHttp, a_url)]);
+    (ODoc 4, [(CHttp, a_url)]);
     (ODoc 4, []);
-    (OErr, [(CHttp, "http://a.test/d")]);
+    (OErr, [(CHttp, a_url)]);
     (ODoc 900, []);
     (ODoc 7, [(CHttp, "http://gw.test/ipfs/Qm/x")]);
     (OErr, []) ].
@@ -511,25 +675,36 @@ Proof. vm_compute. reflexivity. Qed.
 (* C19_inv is not vacuous: a reachable state with a non-empty cache *)
 Example ex_inv :
   cache (run ex_cfg ex_ops) =
-  [ ("http://a.test/d", (4, TAt 4000)); ("http://gw.test/ipfs/Qm/x", (7, TAt 5000)) ].
+  [ (a_url, (4, TAt 4000)); ("http://gw.test/ipfs/Qm/x", (7, TAt 5000)) ].
 Proof. vm_compute. reflexivity. Qed.
 
-(* C19_fresh / C19_no_reuse: a load that returns a document the origin no longer serves *)
-Example ex_no_reuse :
+(* C19_fresh: each of the three sources occurs *)
+Example ex_fresh_cache :
   let ops := firstn 3 ex_ops in
-  snd (load ex_cfg (run ex_cfg ops) "http://a.test/d") = Ok 1 /\
-  origin (run ex_cfg ops) "http://a.test/d" = ROk 2 PNoStore.
-Proof. vm_compute. split; reflexivity. Qed.
+  load ex_cfg (run ex_cfg ops) a_url = (run ex_cfg ops, Ok 1) /\
+  served ops a_url = ok_resp 2 PNoStore /\ In (a_url, (1, TAt 3000)) (cache (run ex_cfg ops)).
+Proof. vm_compute. repeat split; auto. Qed.
 
-(* C19_failures: the origin fails, the load fails, the cache is untouched *)
+(* C19_no_reuse: v3 was served without freshness information and stored (zero expiry);
+   the next load does not return it but fetches v4 *)
+Example ex_no_reuse :
+  let ops := firstn 9 ex_ops in
+  assoc String.eqb a_url (cache (run ex_cfg ops)) = Some (3, TZero) /\
+  served ops a_url = ok_resp 4 (PMaxAge 1000) /\
+  snd (load ex_cfg (run ex_cfg ops) a_url) = Ok 4 /\
+  new_reqs (run ex_cfg ops) (fst (load ex_cfg (run ex_cfg ops) a_url)) = [(CHttp, a_url)].
+Proof. vm_compute. repeat split; reflexivity. Qed.
+
+(* C19_failures: the origin answers 404 with a JSON body and max-age: the load fails once the
+   cached copy has expired, and the cache is untouched *)
 Example ex_failure :
   let st := run ex_cfg (firstn 14 ex_ops) in
-  origin st "http://a.test/d" = RFail FStatus /\
-  snd (load ex_cfg st "http://a.test/d") = Err "status" /\
-  cache (fst (load ex_cfg st "http://a.test/d")) = cache st /\ cache st <> [].
+  origin st a_url = RResp 404 (BJson 5) (PMaxAge 1000) /\
+  snd (load ex_cfg st a_url) = Err "status" /\
+  cache (fst (load ex_cfg st a_url)) = cache st /\ cache st <> [].
 Proof. vm_compute. repeat split; try reflexivity. discriminate. Qed.
 
-(* C19_embedded *)
+(* embedded *)
 Example ex_embedded :
   route_of ex_cfg "https://e.test/ctx" = ToHttp "https://e.test/ctx" /\
   assoc String.eqb "https://e.test/ctx" (embedded ex_cfg) = Some 900.
@@ -539,9 +714,9 @@ Proof. vm_compute. split; reflexivity. Qed.
 Example ex_route :
   route_of ex_cfg "ipfs://Qm/x" = ToHttp "http://gw.test/ipfs/Qm/x" /\
   route_of {| cache_mode_of := CacheOff; ipfs_client := true; gateway := "http://gw.test";
-              url_ok := fun _ => true |} "ipfs://Qm/x" = ToNode "Qm/x" /\
+              url_ok := fun _ => true; cc := cc_reference |} "ipfs://Qm/x" = ToNode "Qm/x" /\
   route_of {| cache_mode_of := CacheDefault; ipfs_client := false; gateway := "";
-              url_ok := fun _ => true |} "ipfs://Qm/x" = Reject /\
+              url_ok := fun _ => true; cc := cc_reference |} "ipfs://Qm/x" = Reject /\
   route_of ex_cfg "httpx://a.test/d" = Reject /\ route_of ex_cfg "" = Reject /\
   route_of ex_cfg "file:///etc/passwd" = Reject.
 Proof. vm_compute. repeat split; reflexivity. Qed.
